@@ -345,3 +345,99 @@ func (w *World) sourceLine(file string, n int) string {
 	}
 	return ls[n-1]
 }
+
+// ---- static call-graph SCCs (for mutual-recursion measures)
+
+var sccID map[*FuncInfo]int
+
+func (w *World) sameSCC(a, b *FuncInfo) bool {
+	if a == nil || b == nil || a.Decl == nil || b.Decl == nil {
+		return false
+	}
+	if sccID == nil {
+		w.computeSCC()
+	}
+	ia, oka := sccID[a]
+	ib, okb := sccID[b]
+	return oka && okb && ia == ib
+}
+
+func (w *World) computeSCC() {
+	sccID = map[*FuncInfo]int{}
+	var nodes []*FuncInfo
+	for _, fi := range w.Funcs {
+		if fi.Decl != nil && fi.Decl.Body != nil {
+			nodes = append(nodes, fi)
+		}
+	}
+	sort.Slice(nodes, func(i, j int) bool { return nodes[i].Key < nodes[j].Key })
+	succ := map[*FuncInfo][]*FuncInfo{}
+	for _, fi := range nodes {
+		info := fi.Pkg.TypesInfo
+		seen := map[*FuncInfo]bool{}
+		ast.Inspect(fi.Decl.Body, func(n ast.Node) bool {
+			ce, ok := n.(*ast.CallExpr)
+			if !ok {
+				return true
+			}
+			var id *ast.Ident
+			switch f := ce.Fun.(type) {
+			case *ast.Ident:
+				id = f
+			case *ast.SelectorExpr:
+				id = f.Sel
+			}
+			if id == nil {
+				return true
+			}
+			if fn, ok := info.Uses[id].(*types.Func); ok {
+				if g := w.ByObj[fn]; g != nil && g.Decl != nil && !seen[g] {
+					seen[g] = true
+					succ[fi] = append(succ[fi], g)
+				}
+			}
+			return true
+		})
+	}
+	// Tarjan
+	index := 0
+	idx := map[*FuncInfo]int{}
+	low := map[*FuncInfo]int{}
+	on := map[*FuncInfo]bool{}
+	var stack []*FuncInfo
+	comp := 0
+	var strong func(v *FuncInfo)
+	strong = func(v *FuncInfo) {
+		index++
+		idx[v], low[v] = index, index
+		stack = append(stack, v)
+		on[v] = true
+		for _, x := range succ[v] {
+			if idx[x] == 0 {
+				strong(x)
+				if low[x] < low[v] {
+					low[v] = low[x]
+				}
+			} else if on[x] && idx[x] < low[v] {
+				low[v] = idx[x]
+			}
+		}
+		if low[v] == idx[v] {
+			comp++
+			for {
+				x := stack[len(stack)-1]
+				stack = stack[:len(stack)-1]
+				on[x] = false
+				sccID[x] = comp
+				if x == v {
+					break
+				}
+			}
+		}
+	}
+	for _, v := range nodes {
+		if idx[v] == 0 {
+			strong(v)
+		}
+	}
+}
